@@ -172,6 +172,8 @@ def make_script(rng, opts, forms, nops, with_alloc=False):
             else:
                 lo, hi = rng.choice(vals), rng.choice(vals)
                 out.append("clamp %d %d %d" % (i, lo, hi))
+                if rng.random() < 0.5:      # an option index outside the table (the first one behind it, far behind, in front)
+                    out.append("badidx %d %d" % (rng.choice([n, n, n + 1, n + 5, 1000, -1, -7]), rng.choice(vals[:8])))
         return out
     s = ["dump"] + ops(nops) + ["dump"]
     if with_alloc:
